@@ -938,7 +938,7 @@ func genDictAst(r *rng, shape int) (*dAst, string) {
 		}
 	}
 	a := &dAst{typ: "FIX", major: "4", minor: strconv.Itoa(r.rangeInt(0, 9))}
-	nc := r.rangeInt(0, 6)
+	nc := r.rangeInt(0, 6) + r.intn(2)*r.intn(5)
 	var pool []string
 	var comps []dComp
 	for i := 0; i < nc; i++ {
@@ -947,7 +947,17 @@ func genDictAst(r *rng, shape int) (*dAst, string) {
 		if len(sub) > 3 && r.chance(1, 2) {
 			sub = sub[len(sub)-3:]
 		}
-		comps = append(comps, dComp{name: name, members: g.members(r.rangeInt(0, 4), sub, r.rangeInt(0, 2), true)})
+		ms := g.members(r.rangeInt(0, 4)+r.intn(2)*r.intn(5), sub, r.rangeInt(0, 2), true)
+		if len(pool) > 0 && r.chance(1, 2) {
+			// components that BEGIN with a nested component, several of them with the same one (flattening must copy,
+			// not share, the nested component's member list)
+			lead := pool[0]
+			if r.chance(1, 2) {
+				lead = r.pick(pool)
+			}
+			ms = append([]*dMember{{kind: 'c', name: lead, req: r.chance(g.pReq, 10)}}, ms...)
+		}
+		comps = append(comps, dComp{name: name, members: ms})
 		pool = append(pool, name)
 	}
 	if kind == "cyclic" {
